@@ -153,7 +153,11 @@ def _nested_code():
         "function F9(){}",
         "var p9={}, o9=Object.create(p9); try { Object.setPrototypeOf(p9, o9); } catch (e9) {} "
         "var q9={}; try { Object.setPrototypeOf(q9, q9); } catch (e8) {} "
-        "while(%s){ o9 instanceof F9; o9.zz9; q9 instanceof F9; q9.zz9 = 1; }" % _c(c))
+        "try { Object.setPrototypeOf(Object.prototype, {}); } catch (e7) {} "
+        "try { Object.setPrototypeOf(Error.prototype, new TypeError('x')); } catch (e6) {} "
+        "try { var z9 = Object.create(o9); Object.setPrototypeOf(p9, Object.create(z9)); } catch (e5) {} "
+        "while(%s){ o9 instanceof F9; o9.zz9; q9 instanceof F9; q9.zz9 = 1; ({}) instanceof F9; [] instanceof F9; "
+        "new TypeError('y') instanceof F9; Object.prototype.isPrototypeOf(o9); }" % _c(c))
     K["fn_eval_loop"] = lambda c, p: ("", "var g8=new Function(%s); g8();" % json.dumps(
         "eval(%s)" % json.dumps("while(%s){}" % _c(c))))
     return K
